@@ -103,16 +103,21 @@ fn checking_general(frame: InterruptStackFrame, index: u8, error_code: Option<u6
     }
 }
 fn any_frame() -> InterruptStackFrame {
+    // the expectation is taken from the constructor's *arguments* (instruction pointer, code segment, flags,
+    // stack pointer, stack segment), not read back from the constructed value
+    let (ip, cs, fl, sp, ss): (u64, u16, u64, u64, u16) = (any_canonical(), kani::any(), kani::any(), any_canonical(), kani::any());
     let f = InterruptStackFrame::new(
-        unsafe { VirtAddr::new_unsafe(any_canonical()) },
-        SegmentSelector(kani::any()),
-        RFlags::from_bits_retain(kani::any()),
-        unsafe { VirtAddr::new_unsafe(any_canonical()) },
-        SegmentSelector(kani::any()),
+        unsafe { VirtAddr::new_unsafe(ip) },
+        SegmentSelector(cs),
+        RFlags::from_bits_retain(fl),
+        unsafe { VirtAddr::new_unsafe(sp) },
+        SegmentSelector(ss),
     );
     unsafe {
-        EXPECT_FRAME = [f.instruction_pointer.as_u64(), f.code_segment.0 as u64, f.cpu_flags.bits(), f.stack_pointer.as_u64(), f.stack_segment.0 as u64];
+        EXPECT_FRAME = [ip, cs as u64, fl, sp, ss as u64];
     }
+    vp!(C13, f.instruction_pointer.as_u64() == ip && f.code_segment.0 == cs && f.cpu_flags.bits() == fl && f.stack_pointer.as_u64() == sp && f.stack_segment.0 == ss,
+        "InterruptStackFrame::new does not store its arguments in the fields of the same name");
     f
 }
 
